@@ -149,6 +149,18 @@ class Builder:
                     fill(n, depth + 1)
                 d.children.append(n)
         fill(self.root, 0)
+        # nearly full volumes (FAT12 only: small enough): one filler file takes all but a few of the remaining clusters, so
+        # that a later allocation scan runs to the very end of the table (spare entries after the last cluster are zero here)
+        self.nearfull = self.bits == 12 and r.chance(1, 3)
+        if self.nearfull:
+            keep = r.range(0, 3)
+            dirs_need = 12
+            used = 60 - budget[0]
+            nfill = len(self.free) - used - dirs_need - keep
+            if nfill > 0:
+                n = Node("file"); n.sfn = b"FILLER  BIN"; n.attr = 0x20
+                n.content = bytes((i * 7) & 0xFF for i in range(nfill * self.cs - r.range(0, self.cs - 1)))
+                self.root.children.append(n)
 
     # ---------------- directory serialisation
     def slots_for(self, n):
